@@ -72,7 +72,9 @@ func setup(a arg) {
 	}
 }
 
-func expect(in []byte, rule int) (bool, uint64, bool) { return expectMax(in, rule, 128) }
+func expect(in []byte, rule int) (bool, uint64, bool) {
+	return expectMax(in, rule, libdefaults.RomanMaxInputLength)
+}
 
 func expectMax(in []byte, rule, max int) (bool, uint64, bool) {
 	if len(in) == 0 {
@@ -93,7 +95,7 @@ func expectMax(in []byte, rule, max int) (bool, uint64, bool) {
 
 func probe(a arg) (string, string) {
 	in := []byte(a.In)
-	max := 128
+	max := libdefaults.RomanMaxInputLength // the limit in force in the default configuration (the statement does not fix its value)
 	if a.Max != nil {
 		max = *a.Max
 	}
